@@ -3,6 +3,9 @@
 From Coq Require Import NArith.
 From Mk Require Import Lib.Bytes Funcs.Utf8.
 
+Lemma cons_inj {A} (x y : A) l m : x :: l = y :: m -> x = y /\ l = m.
+Proof. intros H; injection H; auto. Qed.
+
 Lemma decode_nil : decode [] = (rune_error, 0).
 Proof. reflexivity. Qed.
 
@@ -207,4 +210,62 @@ Proof.
   cbn [forallb] in V. apply andb_true_iff in V as [V1 V2].
   unfold rune_vals, encode_all in *. cbn [map concat].
   rewrite runes_encode_cons by exact V1. cbn [map fst]. f_equal. apply IH. exact V2.
+Qed.
+
+(* decode reads only the bytes it consumes: cutting the string after them changes nothing *)
+Lemma decode_prefix x y : x <> [] -> snd (decode (x ++ y)) <= length x -> decode x = decode (x ++ y).
+Proof.
+  intros NE. destruct x as [|b0 x]; [congruence|]. clear NE. cbn [app]. unfold decode.
+  destruct (bN b0 <? 128)%N; [reflexivity|].
+  destruct (bN b0 <? 194)%N; [reflexivity|].
+  destruct (bN b0 <? 224)%N.
+  { destruct x as [|b1 x]; cbn [app]; [|reflexivity].
+    destruct y as [|c y]; [reflexivity|]. destruct (is_cont c); cbn [snd length]; [lia | reflexivity]. }
+  destruct (bN b0 <? 240)%N.
+  { destruct x as [|b1 [|b2 x]]; cbn [app]; [| |reflexivity].
+    - destruct y as [|c [|d y]]; try reflexivity.
+      destruct (in_rng _ _ c && is_cont d); cbn [snd length]; [lia | reflexivity].
+    - destruct y as [|c y]; try reflexivity.
+      destruct (in_rng _ _ b1 && is_cont c); cbn [snd length]; [lia | reflexivity]. }
+  destruct (bN b0 <? 245)%N.
+  { destruct x as [|b1 [|b2 [|b3 x]]]; cbn [app]; [| | |reflexivity].
+    - destruct y as [|c [|d [|e y]]]; try reflexivity.
+      destruct (in_rng _ _ c && is_cont d && is_cont e); cbn [snd length]; [lia | reflexivity].
+    - destruct y as [|c [|d y]]; try reflexivity.
+      destruct (in_rng _ _ b1 && is_cont c && is_cont d); cbn [snd length]; [lia | reflexivity].
+    - destruct y as [|c y]; try reflexivity.
+      destruct (in_rng _ _ b1 && is_cont b2 && is_cont c); cbn [snd length]; [lia | reflexivity]. }
+  reflexivity.
+Qed.
+
+(* a prefix of the chunk list is the chunk list of the corresponding prefix of the string *)
+Lemma runes_prefix s : forall l1 l2, runes s = l1 ++ l2 -> runes (concat (map snd l1)) = l1.
+Proof.
+  remember (length s) as n eqn:Hn. revert s Hn.
+  induction n as [n IH] using lt_wf_ind. intros s Hn l1 l2 E.
+  destruct l1 as [|p l1]; [reflexivity|].
+  destruct s as [|b t]; [discriminate|].
+  rewrite runes_cons in E. rewrite <- app_comm_cons in E. apply cons_inj in E as [Ep E].
+  pose proof (decode_width b t) as [[Hw1 _] Hw2].
+  set (w := snd (decode (b :: t))) in *.
+  assert (IHs : runes (concat (map snd l1)) = l1).
+  { refine (IH (length (skipn w (b :: t))) _ _ eq_refl l1 l2 E).
+    subst n. rewrite skipn_length. cbn [length] in *. lia. }
+  pose proof (runes_app_chunks _ _ _ E) as Hs.
+  cbn [map concat]. rewrite <- Ep.
+  change (snd (fst (decode (b :: t)), firstn w (b :: t))) with (firstn w (b :: t)).
+  set (c := firstn w (b :: t)) in *.
+  assert (Hc : length c = w) by (unfold c; rewrite firstn_length; lia).
+  assert (Hbt : b :: t = c ++ concat (map snd l1) ++ concat (map snd l2)).
+  { rewrite <- Hs. unfold c. symmetry. apply firstn_skipn. }
+  assert (NEc : c <> []) by (destruct c; [cbn [length] in Hc; lia | discriminate]).
+  assert (Hd : decode (c ++ concat (map snd l1)) = decode (b :: t)).
+  { rewrite Hbt, app_assoc. apply decode_prefix.
+    - destruct c; [congruence | discriminate].
+    - rewrite <- app_assoc, <- Hbt. fold w. rewrite app_length. lia. }
+  destruct (c ++ concat (map snd l1)) as [|c0 u] eqn:Eu.
+  { destruct c; [congruence | discriminate]. }
+  rewrite runes_cons, Hd. fold w. rewrite <- Eu.
+  rewrite firstn_app, <- Hc, Nat.sub_diag, firstn_O, app_nil_r, firstn_all.
+  rewrite skipn_app, Nat.sub_diag, skipn_all. cbn [skipn app]. rewrite IHs. reflexivity.
 Qed.
